@@ -67,6 +67,7 @@ type RunConfig struct {
 	DNSFlaky    int            `json:"dns_flaky_pct,omitempty"` // percent of look-ups of known names that fail (C18)
 	Overtake    bool           `json:"overtake,omitempty"` // scenarios that hold the periodic server inside a tick (holdps/releaseps)
 	WideIDs     bool           `json:"wide_ids,omitempty"` // the random generator's rule ids are wide values (boundaries of the field widths) instead of 1..4
+	Many        int            `json:"many,omitempty"`         // the many-sessions scenario: that many sessions alive at once (Gen.fill)
 	Wide        bool           `json:"wide,omitempty"`         // scenarios with sessions of tens to hundreds of URRs
 	LongPeriods bool           `json:"long_periods,omitempty"` // measurement periods of minutes to days
 	Accum       bool           `json:"accum,omitempty"`   // long runs with scenarios that only matter after many repetitions
